@@ -634,6 +634,11 @@ class Fn:
                 return self._op_origins(cs.args[1], tuple(steps[2:]), visiting)
             if conv is not None:
                 return self._op_origins(cs.args[conv[0]], (conv[1], ("field", 0)) + tuple(steps[2:]), visiting)
+        if cs.name in ("unwrap", "expect", "unwrap_unchecked") and p.startswith(("std::option::Option::", "std::result::Result::")) and cs.args \
+                and not getattr(self, "_identity_mode", False):
+            # the payload (or no value at all)
+            v = "Some" if p.startswith("std::option::Option::") else "Ok"
+            return self._op_origins(cs.args[0], (("variant", v), ("field", 0)) + tuple(steps), visiting)
         if cs.name in ("unwrap_or", "unwrap_or_default") and p.startswith(("std::option::Option::", "std::result::Result::")) and cs.args:
             # the payload, or the fallback
             v = "Some" if p.startswith("std::option::Option::") else "Ok"
